@@ -7,6 +7,7 @@ COMMON_TB = [
 ]
 FLOAT_TB = "IEEE-754 rounding: theorems are over exact rationals; the f64 instance of the same definitions is compared bit-for-bit with the Rust results on the generated cases"
 CONSTS = {"script": "gen_consts.py"}
+UNITS = {"script": "gen_units.py"}
 
 CHARTABLE = {"harness": ["chartable", "{LEAN}/CookModel/Gen/CharTable.lean"]}
 SYNTAX_TB = [
@@ -23,6 +24,16 @@ PROPS = {
             "modelled, not verified: std f64 trunc/round/fract/as-casts (Lean Float ops are assumed to be the same IEEE operations)"],
         "assumptions": ["theorems hold for every structurally well-formed lookup table; that the table built with f64 arithmetic equals the one built exactly is checked at run time by the driver, not proved",
                         "accuracy in [0,1] and max_den <= 64 (the documented preconditions; callers are checked under C03/C16)"],
+    },
+    "C09": {
+        "gen": [CONSTS, UNITS],
+        "trusted_base": COMMON_TB + [FLOAT_TB,
+            "translators/gen_units.py (units.toml -> Gen/Units.lean: exact decimals + f64 bits, id order and SI expansion of ConverterBuilder, fractions layers resolved as build_fractions_config does); its output is compared row by row with Converter::bundled() by the check",
+            "translators/gen_consts.py (the 0.001 slack of best_unit)",
+            "the hand-written table of standard definitions (stdDef in Lemmas/Convert.lean, std_def in harness/src/props/c09.rs)",
+            "modelled, not verified: std f64 abs / partial_cmp, Iterator::min_by / rev / find, slice::sort_by (stable); the unit index, Arc identity and all_units[id] are represented by resolved records carrying their id"],
+        "assumptions": ["the converter is well formed (Converter.wf: best lists hold units of their own quantity, every unit has a key, fractions configurations within new_approx's documented preconditions); decided for the generated bundled converter (C09_bundled_wf), for other converters it is C16's invariant",
+                        "oracle values are finite with magnitude in [1e-9, 1e12] or zero (outside that range f64 overflow/underflow makes 'within floating-point tolerance' meaningless); non-finite and extreme values are compared with the model only"],
     },
     "C04": {
         "gen": [CONSTS, CHARTABLE],
